@@ -1124,3 +1124,104 @@ Proof.
   split; [intros c; cbn; tauto|]. vm_compute. discriminate.
 Qed.
 
+
+(* ---------- first sentence at full generality: every stored commit is made of arrived commits ---------- *)
+Lemma in_removelast {A} (x : A) l : In x (removelast l) -> In x l.
+Proof.
+  induction l as [|a l IH]; [intros []|]. destruct l as [|a' l]; [intros []|].
+  change (removelast (a :: a' :: l)) with (a :: removelast (a' :: l)). intros [<-|H]; [left; reflexivity|right; apply IH; exact H].
+Qed.
+
+(* what one arrival can put into the window: entries already there, the commit itself, or the commit merged into its
+   stored log predecessor (offset and position of the commit, timestamp of the predecessor) *)
+Lemma abs_step_elems md cs b c lag cs' b' a k :
+  abs_step md cs b c lag = (cs', b', a) -> In k cs' ->
+  In k cs \/ (exists lg, k = fresh c lg) \/
+  (exists pv lg, In pv cs /\ co_order pv < cm_order c /\ merges md pv c = true /\ k = merged pv c lg).
+Proof.
+  unfold abs_step. destruct (split_at (cm_order c) cs) as [hi lo] eqn:Es.
+  destruct (split_at_props _ _ _ _ Es) as (Ecs & _ & Hlo). subst cs.
+  set (lagv := match hi with [] => Some lag | _ => None end).
+  destruct lo as [|pv lo'].
+  - destruct b as [|b0]; intros H; injection H as <- <- <-; intros Hk; [left; exact Hk|].
+    apply in_app_or in Hk. destruct Hk as [Hk|[<-|[]]]; [left; rewrite app_nil_r; exact Hk|]. right. left. exists lagv. reflexivity.
+  - destruct (co_order pv =? cm_order c) eqn:Edup; [intros H; injection H as <- <- <-; intros Hk; left; exact Hk|].
+    apply Z.eqb_neq in Edup. assert (Hpv : co_order pv < cm_order c) by lia.
+    destruct (merges md pv c) eqn:Em.
+    + intros H; injection H as <- <- <-. intros Hk. apply in_app_or in Hk. destruct Hk as [Hk|[<-|Hk]].
+      * left. apply in_or_app. left. exact Hk.
+      * right. right. exists pv, lagv. repeat split; auto. apply in_or_app. right. left. reflexivity.
+      * left. apply in_or_app. right. right. exact Hk.
+    + destruct b as [|b0]; intros H; injection H as <- <- <-; intros Hk; apply in_app_or in Hk; destruct Hk as [Hk|[<-|Hk]].
+      * left. apply in_or_app. left. exact Hk.
+      * right. left. exists lagv. reflexivity.
+      * left. apply in_or_app. right. apply in_removelast. exact Hk.
+      * left. apply in_or_app. left. exact Hk.
+      * right. left. exists lagv. reflexivity.
+      * left. apply in_or_app. right. exact Hk.
+Qed.
+
+(* provenance of a stored entry: its offset and log position are those of ONE arrived commit; its timestamp is that of
+   an arrived commit not later in the log (the same one unless commits were merged into an older one) *)
+Definition made_of_arrivals (l : list (commit * Z)) (k : coff) : Prop :=
+  (exists cl, In cl l /\ cm_offset (fst cl) = co_offset k /\ cm_order (fst cl) = co_order k) /\
+  (exists cl, In cl l /\ cm_ts (fst cl) = co_ts k /\ cm_order (fst cl) <= co_order k).
+
+Lemma made_of_arrivals_snoc l x k : made_of_arrivals l k -> made_of_arrivals (l ++ [x]) k.
+Proof.
+  intros [(c1 & H1 & E1) (c2 & H2 & E2)]. split; [exists c1|exists c2]; (split; [apply in_or_app; left; assumption|assumption]).
+Qed.
+
+Lemma abs_run_made_of_arrivals md n l k : In k (fst (abs_run md n l)) -> made_of_arrivals l k.
+Proof.
+  revert k. induction l as [|cl l IH] using rev_ind; intros k; [intros []|].
+  rewrite abs_run_snoc. unfold abs_next.
+  destruct (abs_step md (fst (abs_run md n l)) (snd (abs_run md n l)) (fst cl) (snd cl)) as [[cs' b'] a0] eqn:E. cbn [fst].
+  intros Hk. assert (Hcl : In cl (l ++ [cl])) by (apply in_or_app; right; left; reflexivity).
+  destruct (abs_step_elems _ _ _ _ _ _ _ _ _ E Hk) as [Hold|[(lg & ->)|(pv & lg & Hpv & Hlt & _ & ->)]].
+  - apply made_of_arrivals_snoc, IH, Hold.
+  - split; exists cl; (split; [exact Hcl|cbn; split; [reflexivity|]; try reflexivity; lia]).
+  - split; [exists cl; split; [exact Hcl|split; reflexivity]|].
+    destruct (IH pv Hpv) as [_ (c2 & H2 & Et & Eo)]. exists c2. split; [apply in_or_app; left; exact H2|].
+    cbn [merged co_ts co_order]. split; [exact Et|lia].
+Qed.
+
+Theorem run_stored_arrived md n l k :
+  In (Some k) (readout (ring_run md n l)) -> made_of_arrivals l k.
+Proof.
+  destruct (run_refines md n l) as (_ & _ & Heq). rewrite Heq. unfold readout, conc. intros H.
+  apply in_rev in H. apply in_app_or in H. destruct H as [H|H].
+  - apply in_map_iff in H. destruct H as (x & Ex & Hx). injection Ex as ->. apply abs_run_made_of_arrivals with (md := md) (n := n). exact Hx.
+  - apply repeat_spec in H. discriminate.
+Qed.
+
+(* complete description for every minimum distance: the window is the fold of the one-arrival rule [abs_step] (a
+   function on the sorted list of stored commits: split at the commit's log position; already stored => nothing;
+   predecessor closer than the minimum distance => replace it, keep its timestamp; else a free slot, else push the
+   oldest out, else -- older than a full window -- nothing) *)
+Theorem run_is_rule_fold md n l :
+  readout (ring_run md n l) = window (snd (abs_run md n l)) (rev (fst (abs_run md n l))).
+Proof. destruct (run_refines md n l) as (_ & _ & Heq). rewrite Heq. apply readout_conc. Qed.
+
+(* "closer in time than the minimum distance" as the code computes it: the SIGNED difference new - previous.  A commit
+   later in the log whose timestamp is EARLIER than its predecessor's is therefore closer than any distance >= 0,
+   the disabled distance 0 included. *)
+Lemma merges_negative_gap md pv c :
+  co_order pv < cm_order c -> cm_ts c < co_ts pv -> in_i64 (cm_ts c - co_ts pv) -> 0 <= md -> in_i64 (md * 1000) ->
+  merges md pv c = true.
+Proof.
+  unfold merges. intros Ho Ht Hr Hmd Hm.
+  assert (E1 : sub64 (cm_ts c) (co_ts pv) = cm_ts c - co_ts pv) by (apply wrap64_id; exact Hr).
+  assert (E2 : mul64 md 1000 = md * 1000) by (apply wrap64_id; exact Hm).
+  rewrite E1, E2. apply andb_true_iff. split; [apply Z.ltb_lt; exact Ho|apply Z.ltb_lt; lia].
+Qed.
+
+(* shape and provenance together: the first sentence of the property as far as it holds for ALL sequences *)
+Theorem run_window_shape_arrived md n l :
+  exists b cs, readout (ring_run md n l) = window b cs /\ (b + length cs = n)%nat /\ asc cs /\
+               forall k, In k cs -> made_of_arrivals l k.
+Proof.
+  destruct (run_window_shape md n l) as (b & cs & Hr & Hlen & Ha). exists b, cs.
+  split; [exact Hr|]. split; [exact Hlen|]. split; [exact Ha|].
+  intros k Hk. apply (run_stored_arrived md n). rewrite Hr. unfold window. apply in_or_app. right. apply in_map. exact Hk.
+Qed.
